@@ -30,11 +30,17 @@
 (*    Release         close(stopCh); Delete(key)                             -> CallRel, Del  *)
 (*    Crash           the node stops (context cancelled): heartbeats end, key left to expire  *)
 (*   Time: Tick = one renew period elapses.  A live node renews once per period (Tick is      *)
-(*   enabled only when every holder has renewed since the last Tick; a fresh claim counts).   *)
+(*   enabled only when every holder has renewed since the last Tick; a fresh claim counts),   *)
+(*   and a Release call does not stay between close(stopCh) and Delete for a whole period.    *)
+(*   (Without the second assumption TLC finds, with three nodes: n1 stalls in Release for     *)
+(*   longer than the TTL, its key expires, n2 claims the slot, n1's unconditional Delete      *)
+(*   removes n2's key, n3 claims the slot too.  A 90 s stall inside one call is outside what  *)
+(*   the check can drive; recorded as a limit.)                                               *)
 (*                                                                                            *)
 (* The pattern of pre-existing ids (`taken`) and the instance layout are chosen in Init, so   *)
 (* one TLC run covers all patterns.  Ghost flags name the deviations:                         *)
 (*   nonAtomic  a fallback Set wrote a marker that another instance had written since Exists  *)
+(*   wrongTier  a heartbeat renewal was written to another tier than the one holding the claim*)
 (*   expLive    a node-id claim expired while its holder was alive and renewing               *)
 EXTENDS Naturals, Sequences, FiniteSets, TLC, Json
 
@@ -59,10 +65,10 @@ VARIABLES layout, taken,                       \* chosen in Init
           dup, tookTaken, nonAtomic,           \* ghosts (gen)
           sh, age,                             \* node: claim key of slot present in the claim tier / periods since last write
           hold, renewed, ticks,                \* node: slot held by a node (0 = none) / renewed in this period / periods elapsed
-          expLive, ndup, nforeign,             \* ghosts (node)
+          expLive, wrongTier, ndup, nforeign,  \* ghosts (node)
           hist
 genv  == <<used, cand, att, held, calls, mu, dup, tookTaken, nonAtomic>>
-nodev == <<sh, age, hold, renewed, ticks, expLive, ndup, nforeign>>
+nodev == <<sh, age, hold, renewed, ticks, expLive, wrongTier, ndup, nforeign>>
 vars  == <<layout, taken, pc, genv, nodev, hist>>
 view  == <<layout, taken, pc, genv, nodev>>
 
@@ -81,7 +87,7 @@ Init == /\ layout \in (IF Mode = "gen" THEN Layouts ELSE {"nodes"})
         /\ dup = FALSE /\ tookTaken = FALSE /\ nonAtomic = FALSE
         /\ sh = [s \in Slots |-> Mode = "node" /\ s \in taken] /\ age = [s \in Slots |-> 0]
         /\ hold = [p \in Procs |-> 0] /\ renewed = [p \in Procs |-> FALSE] /\ ticks = 0
-        /\ expLive = FALSE /\ ndup = FALSE /\ nforeign = FALSE
+        /\ expLive = FALSE /\ wrongTier = FALSE /\ ndup = FALSE /\ nforeign = FALSE
         /\ hist = [lay |-> layout, tk |-> taken, st |-> <<>>]
 
 Out(h) == IF Emit THEN PrintT("BEH " \o ToJson(h)) ELSE TRUE
@@ -190,7 +196,7 @@ CallAlloc(n) ==
 \* SetNXRuntime on the key of slot cand[n]
 Claim(n) ==
   /\ Mode = "node" /\ pc[n] = "claim"
-  /\ UNCHANGED <<layout, taken, used, att, held, calls, mu, dup, tookTaken, nonAtomic, ticks, expLive>>
+  /\ UNCHANGED <<layout, taken, used, att, held, calls, mu, dup, tookTaken, nonAtomic, ticks, expLive, wrongTier>>
   /\ LET s == cand[n] IN
      IF ~sh[s]
      THEN /\ sh' = [sh EXCEPT ![s] = TRUE] /\ age' = [age EXCEPT ![s] = 0]
@@ -211,23 +217,27 @@ Renew(n) ==
   /\ renewed' = [renewed EXCEPT ![n] = TRUE]
   /\ IF RenewHitsClaim THEN sh' = [sh EXCEPT ![hold[n]] = TRUE] /\ age' = [age EXCEPT ![hold[n]] = 0]   \* plain Set: unconditional
                        ELSE UNCHANGED <<sh, age>>                                                     \* written to the node-local cache
+  /\ wrongTier' = (wrongTier \/ ~RenewHitsClaim)                                                      \* deviation
   /\ UNCHANGED <<layout, taken, pc, genv, hold, ticks, expLive, ndup, nforeign>>
   /\ Log(n, "Renew", hold[n], IF RenewHitsClaim THEN "claim" ELSE "local")
 
 Tick ==
   /\ Mode = "node" /\ ticks < MaxTicks
+  /\ \E s \in Slots : sh[s] /\ s \notin taken   \* periods are counted only while a claim of a modelled node exists
+                                               \* (keeps "ticks" meaningful: k ticks under a live holder = k renewals)
   /\ \A n \in Procs : Live(n) => renewed[n]
+  /\ \A n \in Procs : pc[n] # "rel"          \* a Release call lasts less than a period (see note below)
   /\ \A s \in Slots : (sh[s] /\ s \notin taken) => age[s] < TTLTicks     \* a due expiry happens before more time passes
   /\ age' = [s \in Slots |-> IF sh[s] /\ s \notin taken THEN age[s] + 1 ELSE age[s]]   \* foreign holders keep their claims fresh
   /\ renewed' = [n \in Procs |-> FALSE] /\ ticks' = ticks + 1
-  /\ UNCHANGED <<layout, taken, pc, genv, sh, hold, expLive, ndup, nforeign>>
+  /\ UNCHANGED <<layout, taken, pc, genv, sh, hold, expLive, wrongTier, ndup, nforeign>>
   /\ Log("time", "Tick", 0, "")
 
 SlotExpire(s) ==
   /\ Mode = "node" /\ sh[s] /\ s \notin taken /\ age[s] = TTLTicks
   /\ sh' = [sh EXCEPT ![s] = FALSE] /\ age' = [age EXCEPT ![s] = 0]
   /\ expLive' = (expLive \/ \E n \in Procs : Live(n) /\ hold[n] = s)    \* deviation
-  /\ UNCHANGED <<layout, taken, pc, genv, hold, renewed, ticks, ndup, nforeign>>
+  /\ UNCHANGED <<layout, taken, pc, genv, hold, renewed, ticks, wrongTier, ndup, nforeign>>
   /\ Log("time", "Expire", s, IF \E n \in Procs : Live(n) /\ hold[n] = s THEN "live" ELSE "dead")
 
 NCallRel(n) ==
@@ -240,7 +250,7 @@ NDel(n) ==
   /\ Mode = "node" /\ pc[n] = "rel"
   /\ sh' = [sh EXCEPT ![hold[n]] = FALSE] /\ age' = [age EXCEPT ![hold[n]] = 0]   \* Delete: unconditional
   /\ hold' = [hold EXCEPT ![n] = 0] /\ pc' = [pc EXCEPT ![n] = "gone"]
-  /\ UNCHANGED <<layout, taken, genv, renewed, ticks, expLive, ndup, nforeign>>
+  /\ UNCHANGED <<layout, taken, genv, renewed, ticks, expLive, wrongTier, ndup, nforeign>>
   /\ Log(n, "Del", 0, "")
 
 Crash(n) ==
@@ -275,11 +285,12 @@ HeldMarked   == ~dup => \A p \in Procs : held[p] \subseteq used
 Exhaustion   == (taken = Cands /\ Mode = "gen") => \A p \in Procs : held[p] = {}
 \* the only route to a duplicate on a store without SetNX is the named deviation, and a single
 \* instance (its own mutex) is safe
-FallbackOnlyDeviation == (Unique \/ nonAtomic) /\ (layout = "same" => Unique)
+FallbackOnlyDeviation == (Unique \/ nonAtomic) /\ (layout = "same" => (Unique /\ HeldMarked))
 \* node ids
 NodeUnique == /\ ~ndup
               /\ \A n, m \in Procs : (n # m /\ Live(n) /\ Live(m)) => hold[n] # hold[m]
 NoForeign  == ~nforeign
 ClaimNeverExpiresUnderLiveHolder == ~expLive
-NodeOnlyDeviation == NodeUnique \/ expLive
+NoWrongTier == ~wrongTier
+NodeOnlyDeviation == NodeUnique \/ wrongTier
 =============================================================================
